@@ -29,6 +29,7 @@ ASSUMPTIONS = [
 KF_FLOORDIV1 = "C03-floordiv-by-one-shortcut"
 KF_MOD1 = "C03-remainder-by-one-shortcut"
 KF_ZEROPOW = "C03-zero-base-power-shortcut"
+KF_EMPTYSUB = "C03-empty-tuple-subscript-returns-aggregate"
 
 BIN = {"+": operator.add, "-": operator.sub, "*": operator.mul, "/": operator.truediv,
        "//": operator.floordiv, "%": operator.mod, "**": operator.pow,
@@ -105,6 +106,15 @@ class Mat2:
         return f"Mat2{self.m}"
 
 
+class TupTable:
+    """an aggregate for which d[(i,)], d[i] and d[i, j] are three different entries"""
+
+    def __getitem__(self, k):
+        if isinstance(k, tuple):
+            return 1000 * (len(k) + 1) + sum((i + 2) * v for i, v in enumerate(k))
+        return 500 + k
+
+
 # {{{ kinds: (symbolic builder, numeric builder); env gives x, y
 
 X, Y = p.Variable("x"), p.Variable("y")
@@ -129,6 +139,10 @@ KINDS = {
     "zquot": (lambda: p.Quotient(0, Y), lambda e: 0 / e["y"]),
     "zsum": (lambda: p.Sum((0,)), lambda e: 0),
     "oprod": (lambda: p.Product((1, 1)), lambda e: 1),
+    # subscripts written with subscript syntax: scalar, one-element tuple, pair
+    "subs": (lambda: p.Variable("d")[X], lambda e: TupTable()[e["x"]]),
+    "sub1": (lambda: p.Variable("d")[X,], lambda e: TupTable()[e["x"],]),
+    "sub2": (lambda: p.Variable("d")[X, Y], lambda e: TupTable()[e["x"], e["y"]]),
 }
 EXPR_KINDS = [k for k, (s, _) in KINDS.items() if isinstance(s(), p.Expression)]
 CONST_KINDS = [k for k in KINDS if k not in EXPR_KINDS]
@@ -140,6 +154,23 @@ def has_bool(prog):
     if prog[0] == "leaf":
         return prog[1] in ("True", "False")
     return any(has_bool(c) for c in prog[1:] if isinstance(c, tuple))
+
+
+def leaves_of(prog):
+    if prog[0] == "leaf":
+        return {prog[1]}
+    out = set()
+    for c in prog[1:]:
+        if isinstance(c, tuple) and c and isinstance(c[0], str):
+            out |= leaves_of(c)
+    return out
+
+
+def has_empty_subscript(prog):
+    if prog[0] == "tindex" and prog[1] == 0:
+        return True
+    return any(has_empty_subscript(c) for c in prog[1:] if isinstance(c, tuple) and c
+               and isinstance(c[0], str))
 
 
 class Refused(Exception):
@@ -180,6 +211,11 @@ def sym(prog, raw_sites=frozenset(), path=()):
         return p.Variable("f")(*args)
     if k == "index":
         return p.Variable("a")[sym(prog[1], raw_sites, path + (1,))]
+    if k == "tindex":      # subscript syntax with a tuple: d[i,]  d[i, j]  d[()]
+        sub = tuple(sym(c, raw_sites, path + (i + 2,)) for i, c in enumerate(prog[2:]))
+        if not sub and "emptyok" in raw_sites:
+            return p.Variable("d")[p.EmptyOK(())]
+        return p.Variable("d")[sub]
     if k == "attr":
         o = p.Variable("o")
         return o.attr("attr") if prog[1] == "attr" else o.a.attr
@@ -235,6 +271,8 @@ def num(prog, env, exact=False, fold=None, path=()):
                 return 0
             if prog[1] == "**" and a == 0 and not isinstance(a, bool):
                 return 0
+        if prog[1] == "**":
+            refsem._pow(a, b) if _rat(a) and _rat(b) else None    # refuses 10**6-bit results
         return _xbin(prog[1], a, b) if exact else BIN[prog[1]](a, b)
     if k == "un":
         return UN[prog[1]](num(prog[2], env, exact, fold, path + (2,)))
@@ -254,6 +292,9 @@ def num(prog, env, exact=False, fold=None, path=()):
         return env["f"](*args)
     if k == "index":
         return env["a"][num(prog[1], env, exact, fold, path + (1,))]
+    if k == "tindex":
+        return TupTable()[tuple(num(c, env, exact, fold, path + (i + 2,))
+                                for i, c in enumerate(prog[2:]))]
     if k == "attr":
         return env["o"].attr
     raise ValueError(k)
@@ -319,7 +360,7 @@ def ops_on_expr(prog):
     return 0 if prog[0] == "leaf" else 1 + sum(ops_on_expr(c) for c in prog[1:] if isinstance(c, tuple))
 
 
-def envs(prog_ops, rng, n):
+def envs(prog_ops, rng, n, nan_ok=False):
     intish = prog_ops & {"<<", ">>", "&", "|", "^", "inv", "index"}
     box = [-2, -1, 0, 1, 2, 3] if intish else [-2, -1, 0, 1, 2, 3, F(1, 2), F(-3, 2), F(5, 4)]
     pts = list(itertools.product(box, repeat=2))
@@ -328,11 +369,19 @@ def envs(prog_ops, rng, n):
     out = []
     for x, y in pts:
         e = G.base_env(x, y, 0)
+        e["d"] = TupTable()
         out.append(e)
+    if {"cmp", "logic"} <= prog_ops and not (prog_ops - {"cmp", "logic"}) and nan_ok:
+        # unordered operands: with a NaN, 'not (a < b)' is not 'a >= b'
+        for x, y in ((float("nan"), 1), (2, float("nan")), (float("nan"), float("nan"))):
+            e = G.base_env(x, y, 0)
+            e["d"] = TupTable()
+            out.append(e)
     if not (prog_ops - {"+", "-", "*", "neg", "pos"}):
         for _ in range(3):
             e = G.base_env(Mat2(*[rng.randint(-2, 3) for _ in range(4)]),
                            Mat2(*[rng.randint(-2, 3) for _ in range(4)]), 0)
+            e["d"] = TupTable()
             out.append(e)
     return out
 
@@ -376,7 +425,10 @@ def c_program(ctx, case):
         return
     ops = prog_ops(prog)
     rng = ctx.sub_rng("env", repr(prog))
-    for env in envs(ops, rng, nenv):
+    # NaN operands only where no algebraic shortcut is in play (0*nan, 0/nan are not 0): pure
+    # comparison / logic programs over variables and non-zero constants
+    nan_ok = leaves_of(prog) <= {"x", "y", "1", "2", "-3", "1.5", "-1", "1.0"}
+    for env in envs(ops, rng, nenv, nan_ok):
         try:
             want = num(prog, env)
         except RecursionError:
@@ -391,6 +443,25 @@ def c_program(ctx, case):
             if not (got[0] == "v" and refsem.values_equal(got[1], want)):
                 ctx.count("agreed_only_with_exact_rational_computation")
             continue
+        # d[()]: documented (and deprecated) to return the aggregate itself
+        if has_empty_subscript(prog):
+            try:
+                t0 = sym(prog, frozenset(["emptyok"]))
+                g0 = refsem.outcome(lambda: refsem.ev(t0, env))
+                if not agrees(g0, prog, env, want, t0):
+                    # ... next to one of the other recorded shortcuts (d[()] // True)
+                    t0 = sym(prog, frozenset(["emptyok"]) | frozenset(pth for pth, _ in sites(prog)))
+                    g0 = refsem.outcome(lambda: refsem.ev(t0, env))
+                if agrees(g0, prog, env, want, t0):
+                    ctx.fail("C03.program", case, f"value:{_psig(prog)}",
+                             f"program {show(prog)} built {tree!s}; env x={env['x']} y={env['y']}: "
+                             f"tree evaluates to {short(got)}, plain computation gives {want!r}",
+                             finding=KF_EMPTYSUB)
+                    continue
+            except RecursionError:
+                raise
+            except Exception:  # noqa: BLE001
+                pass
         # classify: is it one of the three known shortcuts?  explanation test = rebuild with
         # the raw node constructor at exactly the classified sites and require agreement.
         finding = None
@@ -573,8 +644,11 @@ def rand_prog(rng, d, need_expr=True):
         return ("logic", op, rand_prog(rng, d - 1, True), rand_prog(rng, d - 1, False))
     if u < 0.94:
         return ("call", rng.choice(["pos", "kw"]), rand_prog(rng, d - 1, False), rand_prog(rng, d - 1, False))
-    if u < 0.97:
+    if u < 0.96:
         return ("index", ("bin", "%", rand_prog(rng, d - 1, True), ("leaf", "2")))
+    if u < 0.98:
+        n = rng.choice([0, 1, 1, 2])
+        return ("tindex", n, *[rand_prog(rng, d - 1, i == 0) for i in range(n)])
     return ("attr", rng.choice(["attr", "a"]))
 
 
@@ -614,6 +688,20 @@ def workload(ctx):
                 ctx.case(("ord", lk, rk), True, n=0)
                 ctx.run("C03.ordering", (lk, rk))
     ctx.set_exhaustive("ordering comparisons over (kind, kind)")
+    # comparison / logic constructor methods composed with each other (x.lt(y).not_(), ...),
+    # exhaustively over the six comparisons: also evaluated where the operands are unordered
+    lf = lambda k: ("leaf", k)  # noqa: E731
+    for op in CMPM:
+        for l_, r_ in (("x", "y"), ("x", "1"), ("2", "y"), ("sum", "1.5")):
+            c1 = ("cmp", op, lf(l_), lf(r_))
+            for prog in (("logic", "not_", c1, lf("1")),
+                         ("logic", "not_", ("logic", "not_", c1, lf("1")), lf("1")),
+                         ("logic", "and_", ("logic", "not_", c1, lf("1")), ("cmp", "ne", lf("x"), lf("x"))),
+                         ("logic", "or_", c1, ("logic", "not_", ("cmp", op, lf(r_), lf(l_)), lf("1")))):
+                if ctx.mine("cmp-logic"):
+                    ctx.case(("prog", prog), True, n=0)
+                    ctx.count("comparison_logic_compositions")
+                    ctx.run("C03.program", (prog, nenv))
     # random deeper programs
     for i in range(ctx.per_shard(ctx.pick(5000, 120000))):
         prog = rand_prog(rng, rng.randint(2, 4))
